@@ -416,6 +416,23 @@ class Model:
         elif op == "update":
             check_idempotent(self.P, pset, "machine.idempotent", "explicit update_parameter_expression")
             self.verify("update")
+        elif op == "edit_fixed":
+            # the value of a fixed (vary: false) parameter is changed in place on the current object: its expressions follow after an
+            # update, and objects copied from it earlier are not touched (a copy shares nothing with its origin)
+            fixed = [p for p in pset["params"] if p.get("expr") is None and not p.get("vary", True)]
+            if not fixed:
+                return False
+            p = fixed[s["k"] % len(fixed)]
+            v = float(s["v"]) if not p.get("nn") else abs(float(s["v"])) + 0.5
+            new = plain_values(self.P, pset)
+            new[p["label"]] = v
+            if not in_domain(pset, new):
+                return False
+            self.P.get(p["label"]).value = v
+            with expect_ok("machine.update_call"), np.errstate(all="ignore"):
+                self.P.update_parameter_expression()
+            p["value"] = v
+            self.verify("edit_fixed")
         elif op == "csv":
             from glotaran.io import load_parameters
             from glotaran.io import save_parameters
@@ -516,6 +533,10 @@ def machine_factory():
         @rule()
         def update(self):
             self._do({"op": "update"})
+
+        @rule(k=st.integers(0, 5), v=st.sampled_from([0.5, 2.0, -1.25, 3.0, 7.5]))
+        def edit_fixed(self, k, v):
+            self._do({"op": "edit_fixed", "k": k, "v": v})
 
         @rule()
         def csv(self):
